@@ -22,7 +22,9 @@
 (* without a cycle through negation, every query sequence, every           *)
 (* assignment of the atoms: the key returned for a query has the           *)
 (* well-founded value of the query node in the source (MeaningPreserved),  *)
-(* the target is acyclic, and the memo table is sound (MemoSound).         *)
+(* the target is acyclic, and the memo table is sound (MemoSound).  With   *)
+(* propagated evidence values (evv, any SOUND set of them) the equality is *)
+(* required for the assignments that satisfy the evidence.                 *)
 (* ReuseChecksCB / ReuseChecksCN switch off one half of the reuse          *)
 (* condition: both variants must yield a counterexample (vacuity guard).   *)
 (***************************************************************************)
@@ -33,9 +35,10 @@ VARIABLES src,        \* source graph (sequence of AOG nodes)
           qi,         \* next query
           st,         \* target builder state
           tr,         \* translation: node id -> sequence of [node, cb, cn]
-          results     \* keys registered in the target, one per processed query
+          results,    \* keys registered in the target, one per processed query
+          evv         \* source.lookup_evidence: node -> 0 (TRUE) | FKey (FALSE), values fixed by evidence propagation
 
-vars == <<src, queries, qi, st, tr, results>>
+vars == <<src, queries, qi, st, tr, results, evv>>
 
 \* ---------------------------------------------------------------- state machine
 InitRest == qi = 1 /\ st = EmptySt /\ tr = EmptyTr /\ results = << >>      \* src, queries: chosen by the instance
@@ -45,18 +48,24 @@ Step ==
   /\ LET q == queries[qi]
          \* evidence: a fresh translation table for the first evidence node (translation = defaultdict(list))
          t0 == IF q.phase = 2 /\ (qi = 1 \/ queries[qi - 1].phase = 1) THEN EmptyTr ELSE tr
-         r  == BC(src, st, t0, IF q.phase = 2 THEN AbsKey(q.key) ELSE q.key, {})
+         r  == BC(src, st, t0, IF q.phase = 2 THEN AbsKey(q.key) ELSE q.key, {}, evv, q.phase = 2)
          \* evidence on a negative literal: target.negate(newnode)
          k  == IF q.phase = 2 /\ q.key < 0 THEN NegKey(r.ret) ELSE r.ret
      IN  /\ st' = r.st /\ tr' = r.tr
          /\ results' = Append(results, k)
   /\ qi' = qi + 1
-  /\ UNCHANGED <<src, queries>>
+  /\ UNCHANGED <<src, queries, evv>>
 
 Next == Step
 
 \* ---------------------------------------------------------------- properties
 Ids == AtomIds(src)
+EvLits == { queries[i].key : i \in { j \in DOMAIN queries : queries[j].phase = 2 } }
+\* assignments of the atoms in which all evidence literals hold (all of them when there is no evidence)
+Consistent(ws) == \A l \in EvLits : KeyValue("s", ws, l) = "T"
+\* the propagated values are entailed by the evidence (what Propagate.tla establishes for LogicFormula.propagate)
+EvvSound == \A asg \in SUBSET Ids : LET ws == WFM(GraphRules("s", src, asg))
+                                     IN  Consistent(ws) => \A n \in DOMAIN evv : KeyValue("s", ws, n) = (IF evv[n] = 0 THEN "T" ELSE "F")
 WS(asg) == WFM(GraphRules("s", src, asg))
 WT(asg) == WFM(GraphRules("t", st.nodes, asg))
 
@@ -65,7 +74,7 @@ MeaningPreserved ==
   \A asg \in SUBSET Ids :
      LET ws == WS(asg)
          wt == WT(asg)
-     IN  \A i \in DOMAIN results : KeyValue("s", ws, queries[i].key) = KeyValue("t", wt, results[i])
+     IN  Consistent(ws) => \A i \in DOMAIN results : KeyValue("s", ws, queries[i].key) = KeyValue("t", wt, results[i])
 
 TargetAcyclic == Acyclic(st.nodes)
 
@@ -74,7 +83,7 @@ MemoSound ==
   \A asg \in SUBSET Ids :
      LET ws == WS(asg)
          wt == WT(asg)
-     IN  \A n \in DOMAIN tr : \A i \in DOMAIN tr[n] :
+     IN  Consistent(ws) => \A n \in DOMAIN tr : \A i \in DOMAIN tr[n] :
             tr[n][i].cb = {} => KeyValue("s", ws, n) = KeyValue("t", wt, tr[n][i].node)
 
 \* broken cycles of a memo entry are nodes of the source, never atoms
